@@ -455,7 +455,7 @@ pub fn run(ctx: Ctx) -> ! {
     }
     let rich = !ctx.quick();
     let cts = class_types();
-    let window_depth = ctx.pick(4usize, 6);
+    let window_depth = ctx.pick(5usize, 6);
     let whole_depth = ctx.pick(2usize, 3);
     const WINDOW: usize = 6;
     const STRIDE: usize = 3;
